@@ -586,10 +586,12 @@ func runC14R3(c *Ctx, r *Rep) {
 			for _, s := range x.Body {
 				ast.Inspect(s, func(m ast.Node) bool {
 					call, ok := m.(*ast.CallExpr)
-					if !ok || len(call.Args) != 3 {
+					if !ok || len(call.Args) < 3 {
 						return true
 					}
-					if id, ok := call.Fun.(*ast.Ident); ok && id.Name == "decodeHex" {
+					// the hex decoder: a closure or a named function, the number of digits is its last argument
+					if id, ok := call.Fun.(*ast.Ident); ok && strings.Contains(strings.ToLower(id.Name), "hex") {
+						call = &ast.CallExpr{Fun: call.Fun, Args: []ast.Expr{call.Args[0], call.Args[1], call.Args[len(call.Args)-1]}}
 						if tv, ok := pr.TypesInfo.Types[call.Args[2]]; ok && tv.Value != nil {
 							for _, e := range x.List {
 								if lv, ok := pr.TypesInfo.Types[e]; ok && lv.Value != nil {
